@@ -9,6 +9,26 @@ use litefmt::FixedBuf;
 use refmodel::numbers::*;
 use tw::WriteTomlValue;
 
+/// `out` is `digits` or `digits` + ".0" (the latter only when `digits` has no fractional part)
+fn is_display_digits_plus_optional_point_zero(out: &[u8], digits: &[u8]) -> bool {
+    if refmodel::bytes_eq(out, digits) {
+        return true;
+    }
+    let mut has_point = false;
+    let mut i = 0;
+    while i < digits.len() {
+        if digits[i] == b'.' {
+            has_point = true;
+        }
+        i += 1;
+    }
+    !has_point
+        && out.len() == digits.len() + 2
+        && refmodel::bytes_eq(&out[..digits.len()], digits)
+        && out[digits.len()] == b'.'
+        && out[digits.len() + 1] == b'0'
+}
+
 fn check_float_text(out: &[u8], is_nan: bool, is_inf: bool, negative: bool, is_zero: bool) {
     kani::cover!(is_nan && negative, "-nan");
     kani::cover!(is_inf && !negative, "+inf");
@@ -21,6 +41,16 @@ fn check_float_text(out: &[u8], is_nan: bool, is_inf: bool, negative: bool, is_z
             assert!(!is_nan && !is_inf, "nan / inf not written as a TOML special float");
             assert!(r_float_syntax(out), "finite float not written as a TOML float literal");
             assert!((out[0] == b'-') == negative, "sign lost");
+            if !is_zero {
+                // "prints as a literal ... that parses back to the identical value": the digits are
+                // exactly those of std's shortest round-trip `Display` (M4 / ghost), at most
+                // followed by `.0`; anything else (e.g. a non-zero value written as `0.0`) loses
+                // the value
+                assert!(
+                    is_display_digits_plus_optional_point_zero(out, litefmt::ghost::last_float()),
+                    "finite non-zero float not written with Display's digits"
+                );
+            }
         }
     }
 }
@@ -29,7 +59,7 @@ fn check_float_text(out: &[u8], is_nan: bool, is_inf: bool, negative: bool, is_z
 #[kani::unwind(12)]
 pub fn c11_write_f64_all_bits() {
     let x: f64 = kani::any();
-    let mut out = FixedBuf::<16>::new();
+    let mut out = FixedBuf::<512>::new();
     let r = x.write_toml_value(&mut out);
     assert!(r.is_ok() && !out.overflow);
     check_float_text(out.as_slice(), x.is_nan(), x.is_infinite(), x.is_sign_negative(), x == 0.0);
@@ -39,7 +69,7 @@ pub fn c11_write_f64_all_bits() {
 #[kani::unwind(12)]
 pub fn c11_write_f32_all_bits() {
     let x: f32 = kani::any();
-    let mut out = FixedBuf::<16>::new();
+    let mut out = FixedBuf::<512>::new();
     let r = x.write_toml_value(&mut out);
     assert!(r.is_ok() && !out.overflow);
     check_float_text(out.as_slice(), x.is_nan(), x.is_infinite(), x.is_sign_negative(), x == 0.0);
